@@ -1,6 +1,198 @@
-//! daemon-side cases (filled in as the checks that need them are built)
-pub fn cmd_extract(_a: &[&str]) -> String { "unimplemented".into() }
-pub fn cmd_history(_a: &[&str]) -> String { "unimplemented".into() }
-pub fn cmd_grace(_a: &[&str]) -> String { "unimplemented".into() }
-pub fn cmd_poller(_a: &[&str]) -> String { "unimplemented".into() }
-pub fn cmd_e2e(_a: &[&str]) -> String { "unimplemented".into() }
+//! daemon-side cases: the REAL extract_bound_from_tracking / ShmUpdater / poller loop through the cfg-gated
+//! re-exports, under the virtual clock.
+use crate::{VClock, VCLOCK};
+use chrony_candm::common::{ChronyAddr, ChronyFloat};
+use chrony_candm::reply::Tracking;
+use clock_bound_d::verif::chrony_poller as vp;
+use clock_bound_d::verif::shm_writer as vs;
+use clock_bound_shm::{ClockErrorBound, ShmWrite};
+use std::cell::RefCell;
+use std::rc::Rc;
+use std::time::{Duration, SystemTime, UNIX_EPOCH};
+
+fn f64_of_hex(h: &str) -> f64 {
+    f64::from_bits(u64::from_str_radix(h, 16).unwrap_or(0))
+}
+
+fn hex_of_f64(x: f64) -> String {
+    format!("{:016x}", x.to_bits())
+}
+
+const BASE_SECS: u64 = 1_000_000_000; // virtual "now" of the realtime clock
+
+pub fn set_clock(real_ns: i128, mono_ns: i128) {
+    VCLOCK.with(|v| {
+        *v.borrow_mut() = VClock {
+            active: true,
+            real: ((real_ns.div_euclid(1_000_000_000)) as i64, (real_ns.rem_euclid(1_000_000_000)) as i64),
+            mono: ((mono_ns.div_euclid(1_000_000_000)) as i64, (mono_ns.rem_euclid(1_000_000_000)) as i64),
+            reads: vec![],
+            fail_id: None,
+        }
+    });
+}
+
+pub fn clock_off() -> Vec<i32> {
+    VCLOCK.with(|v| {
+        let mut v = v.borrow_mut();
+        v.active = false;
+        v.reads.clone()
+    })
+}
+
+pub fn tracking(c: f64, d: f64, r: f64, iv: f64, leap: u16, ref_time: SystemTime, ref_id: u32) -> Tracking {
+    Tracking {
+        ref_id,
+        ip_addr: ChronyAddr::default(),
+        stratum: 1,
+        leap_status: leap,
+        ref_time,
+        current_correction: ChronyFloat::from(c),
+        last_offset: ChronyFloat::from(0.0),
+        rms_offset: ChronyFloat::from(0.0),
+        freq_ppm: ChronyFloat::from(0.0),
+        resid_freq_ppm: ChronyFloat::from(0.0),
+        skew_ppm: ChronyFloat::from(0.0),
+        root_delay: ChronyFloat::from(d),
+        root_dispersion: ChronyFloat::from(r),
+        last_update_interval: ChronyFloat::from(iv),
+    }
+}
+
+fn ref_time_for_age(age_ns: i64) -> SystemTime {
+    let now = UNIX_EPOCH + Duration::from_secs(BASE_SECS);
+    if age_ns >= 0 {
+        now - Duration::from_nanos(age_ns as u64)
+    } else {
+        now + Duration::from_nanos((-age_ns) as u64)
+    }
+}
+
+pub fn chrony_status_num(s: clock_bound_d::ChronyClockStatus) -> i64 {
+    match s {
+        clock_bound_d::ChronyClockStatus::Unknown => 0,
+        clock_bound_d::ChronyClockStatus::Synchronized => 1,
+        clock_bound_d::ChronyClockStatus::FreeRunning => 2,
+    }
+}
+
+/// extract <c hex> <d hex> <r hex> <iv hex> <leap> <age_ns> <ref_id>
+pub fn cmd_extract(a: &[&str]) -> String {
+    if a.len() < 6 {
+        return "usage".into();
+    }
+    let (c, d, r, iv) = (f64_of_hex(a[0]), f64_of_hex(a[1]), f64_of_hex(a[2]), f64_of_hex(a[3]));
+    let leap: u16 = a[4].parse().unwrap_or(0);
+    let age_ns: i64 = a[5].parse().unwrap_or(0);
+    let ref_id: u32 = a.get(6).and_then(|x| x.parse().ok()).unwrap_or(0);
+    let t = tracking(c, d, r, iv, leap, ref_time_for_age(age_ns), ref_id);
+    let seen = (
+        f64::from(t.current_correction),
+        f64::from(t.root_delay),
+        f64::from(t.root_dispersion),
+        f64::from(t.last_update_interval),
+    );
+    set_clock(BASE_SECS as i128 * 1_000_000_000, 0);
+    let res = std::panic::catch_unwind(|| vs::extract_bound(t));
+    clock_off();
+    match res {
+        Ok((bound, status)) => format!(
+            "ok c={} d={} r={} iv={} bound={} status={} age_ns={}",
+            hex_of_f64(seen.0),
+            hex_of_f64(seen.1),
+            hex_of_f64(seen.2),
+            hex_of_f64(seen.3),
+            bound,
+            chrony_status_num(status),
+            age_ns
+        ),
+        Err(p) => format!("panic {}", crate::panic_msg(&p)),
+    }
+}
+
+/// a ShmWrite sink that records what the updater publishes
+pub struct Sink(pub Rc<RefCell<Vec<ClockErrorBound>>>);
+
+impl ShmWrite for Sink {
+    fn write(&mut self, ceb: &ClockErrorBound) {
+        self.0.borrow_mut().push(*ceb);
+    }
+}
+
+pub fn ceb_fields(c: &ClockErrorBound) -> String {
+    // ClockErrorBound's fields are private: decode the #[repr(C)] bytes at the documented offsets
+    let b: [u8; 56] = unsafe { std::mem::transmute_copy(c) };
+    let i = |o: usize| i64::from_ne_bytes(b[o..o + 8].try_into().unwrap());
+    let u = |o: usize| u32::from_ne_bytes(b[o..o + 4].try_into().unwrap());
+    format!("{}:{}:{}:{}:{}:{}:{}", i(0), i(8), i(16), i(24), i(32), u(40), u(48))
+}
+
+/// history <drift> <step> <step> ...   (fresh ShmUpdater; every step publishes one record)
+///   step := R,<c hex>,<d hex>,<r hex>,<iv hex>,<leap>,<age_ns>,<phc>,<asof_s>,<asof_ns>   a chrony report
+///         | G   no answer within the grace period      | N   no answer beyond the grace period
+/// prints the published records as as_of_s:as_of_ns:void_s:void_ns:bound:drift:status
+pub fn cmd_history(a: &[&str]) -> String {
+    let drift: u32 = a.get(0).and_then(|x| x.parse().ok()).unwrap_or(1000);
+    let store = Rc::new(RefCell::new(Vec::new()));
+    let res = std::panic::catch_unwind(std::panic::AssertUnwindSafe(|| {
+        let mut up = vs::Updater::new(Sink(store.clone()), drift);
+        for step in &a[1..] {
+            let p: Vec<&str> = step.split(',').collect();
+            match p[0] {
+                "R" => {
+                    let t = tracking(
+                        f64_of_hex(p[1]),
+                        f64_of_hex(p[2]),
+                        f64_of_hex(p[3]),
+                        f64_of_hex(p[4]),
+                        p[5].parse().unwrap(),
+                        ref_time_for_age(p[6].parse().unwrap()),
+                        0,
+                    );
+                    set_clock(BASE_SECS as i128 * 1_000_000_000, 0);
+                    up.clock_update(t, p[7].parse().unwrap(), libc::timespec { tv_sec: p[8].parse().unwrap(), tv_nsec: p[9].parse().unwrap() });
+                    clock_off();
+                }
+                "G" => up.missing(true),
+                "N" => up.missing(false),
+                _ => {}
+            }
+        }
+    }));
+    clock_off();
+    let recs: Vec<String> = store.borrow().iter().map(ceb_fields).collect();
+    match res {
+        Ok(()) => format!("ok {}", recs.join(" ")),
+        Err(p) => format!("panic {} after {}", crate::panic_msg(&p), recs.join(" ")),
+    }
+}
+
+/// grace <elapsed_ns_since_last_answer | -1 for "never answered, fresh default poller"> <uptime_ns>
+pub fn cmd_grace(a: &[&str]) -> String {
+    let el: i64 = a.get(0).and_then(|x| x.parse().ok()).unwrap_or(-1);
+    let res = std::panic::catch_unwind(|| {
+        if el < 0 {
+            let p = vp::Poller::new_default();
+            // evaluated immediately and again `-el - 1` ns later is not possible without sleeping: report the immediate value
+            p.is_within_grace_period()
+        } else {
+            let now = std::time::Instant::now();
+            match now.checked_sub(Duration::from_nanos(el as u64)) {
+                Some(last) => vp::Poller::with_last_tracking_data(last).is_within_grace_period(),
+                None => false,
+            }
+        }
+    });
+    match res {
+        Ok(b) => format!("ok within={}", b),
+        Err(p) => format!("panic {}", crate::panic_msg(&p)),
+    }
+}
+
+pub fn cmd_poller(_a: &[&str]) -> String {
+    "unimplemented".into()
+}
+
+pub fn cmd_e2e(_a: &[&str]) -> String {
+    "unimplemented".into()
+}
